@@ -406,7 +406,46 @@ class Check:
         cases = corpus + self.gen(self.rng, self.n_cases())
         impl_outs = self.impl(cases)
         if impl_outs is None or len(impl_outs) != len(cases):
-            raise Infra(f'impl runner failed: {self.notes[-1:]}')
+            err = str(self.notes[-1]) if self.notes else ''
+            crashed_in_code = ('Traceback' in err and (str(REPO) in err or 'harness/impl' in err)
+                               and 'TIMEOUT' not in err)
+            if not crashed_in_code:
+                raise Infra(f'impl runner failed: {self.notes[-1:]}')
+            # The runner of the REAL code died with a Python exception raised in the library (or in the
+            # harness code driving it): on the unchanged tree this never happens, so the correspondence
+            # between model and implementation can no longer be established.  Look for a single case
+            # that still crashes (replay), then report as a broken tie.
+            culprit = None
+            lo, hi = 0, len(cases)
+            for _ in range(12):
+                if hi - lo <= 1:
+                    break
+                mid = (lo + hi) // 2
+                if self.impl(cases[lo:mid]) is None:
+                    hi = mid
+                elif self.impl(cases[mid:hi]) is None:
+                    lo = mid
+                else:
+                    break
+            if hi - lo == 1 and self.impl(cases[lo:hi]) is None:
+                culprit = cases[lo]
+            wall = time.time() - self.t0
+            ev = {'property_id': self.PROP, 'tier': self.tier, 'seed': self.seed, 'level': self.LEVEL,
+                  'coverage': {'obligations': len(self.THEOREMS), 'discharged': len(self.THEOREMS) if proof_ok else 0,
+                               'checker_cmd': f'cd lean && lake build {" ".join(self.LEAN_TARGETS)}',
+                               'trusted_base': TRUSTED_BASE + self.EXTRA_TRUSTED, 'evaluations': 0,
+                               'distinct_nontrivial': 0, 'rule': self.rule(),
+                               'notes': ['the runner of the real code crashed: ' + err[-600:]]},
+                  'assumptions': self.ASSUMPTIONS, 'wall_s': round(wall, 2), 'violations': 1}
+            (VERIF / 'evidence').mkdir(exist_ok=True)
+            (VERIF / 'evidence' / f'{self.PROP}.json').write_text(json.dumps(ev, indent=1))
+            path = self.write_replay({'kind': 'tie-broken',
+                                      'no_longer_checks': 'correspondence: the runner of the real code raised inside the library',
+                                      'crash': err[-2500:], 'disagreements': ([{'case': culprit, 'diff': 'runner crashed on this case'}]
+                                                                               if culprit is not None else []),
+                                      'proof_detail': pdetail})
+            print(f'VIOLATION property={self.PROP} replay={path} no-failing-input-found')
+            return 1
         model_outs, model_err = None, None
         try:
             model_outs = self.model(cases)
